@@ -95,7 +95,7 @@ def run_bin(binp, args, threads, timeout=3000):
     return outs[-1] if outs else {}
 
 
-def models(chk, thorough):
+def models(chk, thorough, ex):
     jobs = [("base", "Determinism_thorough" if thorough else "Determinism_quick")]
     muts = MUTANTS if thorough else QUICK_MUTANTS
     jobs += [("mut_" + m, "Determinism_mut_" + m) for m in muts]
@@ -103,10 +103,11 @@ def models(chk, thorough):
     def one(j):
         return j[0], common.tlc("Determinism", cfg=j[1], workers=3, timeout=1200, tag="c19" + j[0])
 
-    res = {}
-    with ThreadPoolExecutor(max_workers=3) as ex:
-        for k, r in ex.map(one, jobs):
-            res[k] = r
+    futs = [ex.submit(one, j) for j in jobs]
+    return lambda: _models_done(chk, dict(f.result() for f in futs), muts)
+
+
+def _models_done(chk, res, muts):
     r = res["base"]
     if not r.ok:
         raise ToolError("Determinism violates " + str(r.violated))
@@ -210,11 +211,11 @@ def run(chk, tier):
                        "the CPU has AVX2/AVX-512; a flavour is a separate cargo target directory"]
     # ---- A
     with ThreadPoolExecutor(max_workers=3) as ex:
-        f_m = ex.submit(models, chk, thorough)
         f_p1 = ex.submit(c01.tlc_programs, chk, "Programs_len1", "Programs: all one-instruction programs")
         f_ps = ex.submit(c01.tlc_programs, chk, "Programs_sim", "Programs: simulated programs (<= 12 instructions)",
                          400 if thorough else 60, 13, False)
-        catalogue = f_m.result()
+        done = models(chk, thorough, ex)
+        catalogue = done()
         p1, psim = f_p1.result(), f_ps.result()
     cfgs, classes = c01.configs(chk)
     conds = sorted(catalogue["conditions"], key=lambda c: (c["flavour"] != "release", c["flavour"], c["threads"]))
